@@ -1,2 +1,4 @@
 pub mod flow;
+pub mod matrix;
+pub mod sample;
 pub mod table;
